@@ -19,3 +19,10 @@ package zero
 //@   requires b != nil
 //@   modifies b[*]
 //@   ensures zeroed: forall j int :: 0 <= j && j < 64 ==> b[j] == 0
+
+// the words of the value are taken while it still has them, every one is overwritten, and only then is the value reset
+//@ func BigInt
+//@   requires x != nil
+//@   assert-at call SetInt64 every-word-of-the-value-wiped-before-it-is-reset: arg0 == x && arg1 == 0 && (forall j int :: 0 <= j && j < len(lastresult("Bits")) ==> lastresult("Bits")[j] == 0)
+//@   assert-at call Bits words-of-this-value: arg0 == x
+//@   loop * invariant wiped-prefix: -1 <= #rangeindex && #rangeindex < len(b) && (forall j int :: 0 <= j && j <= #rangeindex ==> b[j] == 0)
